@@ -115,12 +115,12 @@ def concretise(fr_inputs, int_names=()):
     return enc, val
 
 
-def run_concrete(spec, enc_inputs, neutralise=None):
+def run_concrete(spec, enc_inputs, neutralise=None, hashseed=None):
     req = {"spec": spec, "inputs": enc_inputs, "neutralise": neutralise or []}
     env = dict(os.environ)
     env["SMOOTHMATH_SRC"] = REPO_SRC
     env.pop("PYTHONPATH", None)
-    env["PYTHONHASHSEED"] = env.get("PYTHONHASHSEED", "0")
+    env["PYTHONHASHSEED"] = str(hashseed) if hashseed is not None else env.get("PYTHONHASHSEED", "0")
     p = subprocess.run([REPLAY_PY, os.path.join(VERIF, "harness", "replay_runner.py")], input=json.dumps(req),
                        capture_output=True, text=True, timeout=120, env=env)
     if p.returncode != 0:
@@ -181,6 +181,7 @@ def replay_gate(eng, vc, spec, consts, int_names, base_query, max_models=6, neut
         enc, val = concretise(fr, int_names)
         try:
             outs = [decode_out(o) for o in run_concrete(spec, enc)]
+            vc.enc = enc
             why = vc.judge(val, outs)
         except Exception as e:  # noqa
             why = None
